@@ -176,6 +176,21 @@ def run_fourier(spec):
         if relerr(np.sign(f2) * (f2 / factor) ** 2, ev, max(np.abs(ev).max(), 1e-12)) > 1e-9:
             return Out(ok=False, msg="get_frequencies differs from Fourier-sum eigenvalues at q=%s" % q.tolist())
         asserted += 1
+    if spec["regime"] == "short":
+        # the same frequencies through the mesh routes (stored and iterated): unit factor and Fourier sum at the mesh's own q-points
+        mesh = [2, 1, 3]
+        ph.run_mesh(mesh, is_mesh_symmetry=False, is_gamma_center=bool(spec["key"] % 2))
+        md = ph.get_mesh_dict()
+        ph.init_mesh(mesh, is_mesh_symmetry=False, is_gamma_center=bool(spec["key"] % 2), use_iter_mesh=True)
+        fi = np.array([fr for fr, _ in ph.mesh])
+        for route, fm in (("run_mesh", md["frequencies"]), ("iterated mesh", fi)):
+            for qm, fr in zip(md["qpoints"], fm):
+                ev = np.linalg.eigvalsh(ifc.dynmat(qm, masses))
+                e = relerr(np.sign(fr) * (fr / factor) ** 2, ev, max(np.abs(ev).max(), np.abs(fc).max() / masses.min()))
+                if e > 1e-9:
+                    return Out(ok=False, info={"err": e}, msg="%s frequencies at q=%s are not sign(e)sqrt|e|*factor of the Fourier-sum eigenvalues: "
+                               "%.3e (factor %r)" % (route, np.asarray(qm).tolist(), e, factor))
+        asserted += 1
     nondiag = bool(np.any(S - np.diag(np.diag(S))))
     cent = npa < len(c["cell"])
     special_q = any(np.abs(q).max() > 0.5 + 1e-9 or np.any(np.abs(np.abs(q) - 0.5) < 1e-9) for q, _ in all_q)
